@@ -302,9 +302,9 @@ Section Created2.
     (* assemble *)
     pose proof (p1_load_ok md5 ix (io_init fs2 []) _ sa v (erase keep datas) sb
                   slots (if existsb idb kv then size else 0%nat) sd He ER EV) as PL.
-    rewrite F2, F3, F1, F5 in PL.
+    unfold nsaved in PL. rewrite F2, F3, F1 in PL.
     assert (Efs : filter saved entries = entries) by apply filter_saved_mk.
-    rewrite Efs in PL.
+    rewrite Efs, Hel in PL.
     specialize (PL eq_refl EL Hds).
     assert (EC : (256 <=? N.of_nat (length datas)) = false) by (apply N.leb_gt; lia).
     specialize (PL EC ELV1).
